@@ -169,7 +169,7 @@ impl<'a, S, A> ldap3::adapters::Adapter<'a, S, A> for FailAtEnd where S: AsRef<s
         match stream.next().await? { Some(e) => Ok(Some(e)), None => Err(ldap3::LdapError::AdapterInit("the adapter's own error at the end of a page".into())) } }
     async fn finish(&mut self, stream: &mut ldap3::SearchStream<'a, S, A>) -> ldap3::result::LdapResult { stream.finish().await }
 }
-pub fn gen_useradapter(_rng: &mut Rng, _n: usize, out: &mut Vec<String>) { for v in ["fail 0", "fail 1", "tick 0", "tick 1", "tail 1", "pagedfail 0"] { out.push(format!("useradapter {}", v)); } }
+pub fn gen_useradapter(_rng: &mut Rng, _n: usize, out: &mut Vec<String>) { for v in ["fail 0", "fail 1", "tick 0", "tick 1", "tail 1", "pagedfail 0", "pagedfail 1"] { out.push(format!("useradapter {}", v)); } }
 async fn run_useradapter(args: &[String]) -> (String, Option<String>) {
     let mut sess = new_sess();
     let table = sess.ldap.verif_id_table_handle();
@@ -192,7 +192,8 @@ async fn run_useradapter(args: &[String]) -> (String, Option<String>) {
     if args[0] == "pagedfail" {
         let ads: Vec<Box<dyn ldap3::adapters::Adapter<_, _>>> = vec![Box::new(PagedResults::new(2)), Box::new(FailAtEnd)];
         let mut script = vec![]; for k in 1..=2 { script.extend(item_msg(1, 'e', k, &[])); }
-        let pr = control(b"1.2.840.113556.1.4.319", None, Some(&enc(&crate::lanes::frame::seq(vec![crate::lanes::frame::int_tag(0), octets(b"cookie-1")]))));
+        // "pagedfail 1": the page is the LAST one (empty cookie): the server's final result is at hand, without the paging control (C16)
+        let pr = control(b"1.2.840.113556.1.4.319", None, Some(&enc(&crate::lanes::frame::seq(vec![crate::lanes::frame::int_tag(0), octets(if below { b"" } else { b"cookie-1" })]))));
         script.extend(done_msg(1, 0, &[], vec![pr]));
         let fut = l.streaming_search_with(ads, "dc=x", Scope::Subtree, "(a=b)", vec!["cn"]);
         let mut st = match fut.await { Ok(s) => s, Err(e) => return ("oracle-only".into(), Some(format!("harness: start failed {:?}", e))) };
@@ -201,6 +202,7 @@ async fn run_useradapter(args: &[String]) -> (String, Option<String>) {
         let res = st.finish().await; settle().await;
         let paged_in = res.ctrls.iter().any(|c| c.1.ctype == "1.2.840.113556.1.4.319");
         let o = if !matches!(a, Ok(Some(_))) || !matches!(b, Ok(Some(_))) || c3.is_ok() { Some(format!("harness: expected two entries and then the adapter's error, got {:?}/{:?}/{:?}", a.map(|x| x.is_some()), b.map(|x| x.is_some()), c3.map(|x| x.is_some()))) }
+            else if below { if paged_in { Some(format!("F56: an adapter below PagedResults failed at the end of the last page; finish() returned code {} still carrying the paging control", res.rc)) } else { None } }
             else if res.rc != 88 || paged_in { Some(format!("F56: an adapter below PagedResults failed at the end of page 1 of a longer search; finish() returned code {} (paging control with a live cookie in it: {}) instead of the cancellation 88", res.rc, paged_in)) } else { None };
         return ("oracle-only".into(), o);
     }
